@@ -307,7 +307,8 @@ def run_history(rec, tier, seed):
                     rec.violation("characters:wrong_value:history", case, expected=sN, observed=back)
         rec.observe(c1, c2)
     # reverse_complement with alternating complement maps
-    maps = [{"A": "T", "C": "G", "G": "C", "T": "A"}, {"A": "U", "C": "G", "G": "C", "U": "A"}, {"T": "A", "G": "C", "C": "G", "A": "T"}]
+    maps = [{"A": "T", "C": "G", "G": "C", "T": "A"}, {"A": "U", "C": "G", "G": "C", "U": "A"}, {"T": "A", "G": "C", "C": "G", "A": "T"},
+            {"K": "N", "L": "M", "M": "L", "N": "K"}, {"A": "T", "T": "A", "N": "n", "n": "N"}]      # maps in which 'N' is an ordinary letter
     for (m1, m2) in itertools.permutations(range(len(maps)), 2):
         for mi in (m1, m2, m1):
             cm = maps[mi]
@@ -316,10 +317,10 @@ def run_history(rec, tier, seed):
                 s = "".join(tup)
                 exp = "".join(cm[c] for c in reversed(s))
                 st, r = call(reverse_complement, s, complement_map=cm)
-                x = one_hot_encode(s, alphabet=keys)
+                x = one_hot_encode(s, alphabet=keys, ignore=[])
                 st2, xr = call(reverse_complement, x, complement_map=cm)
                 rec.case(1, 1)
-                if st != "ok" or r != exp or st2 != "ok" or not torch.equal(xr, one_hot_encode(exp, alphabet=keys)):
+                if st != "ok" or r != exp or st2 != "ok" or not torch.equal(xr, one_hot_encode(exp, alphabet=keys, ignore=[])):
                     rec.violation("reverse_complement:wrong:history", dict(fn="reverse_complement", s=s, complement_map=cm), expected=exp, observed=r)
     rec.sample(dict(kind="history", configurations=cfgs, strings=len(strings), complement_maps=maps))
 
